@@ -76,6 +76,9 @@ enum Op {
     /// drop the object and open the same directory again
     Reopen,
     Compact,
+    /// store `n` distinct 8-byte objects whose encoding keys all fall into index bucket `bucket`
+    /// (contents are re-drawn from `seed` until the key does): fills one bucket's update log
+    FillBucket { bucket: u8, n: u16, seed: u64 },
 }
 
 #[derive(Debug, Clone, Serialize, Deserialize)]
@@ -446,7 +449,7 @@ impl World<'_> {
         Ok(())
     }
 
-    async fn do_write(&mut self, data: Arc<Vec<u8>>, inner: Option<Arc<Vec<u8>>>, class: Class, mode: u8, key_style: u8) -> Result<(), Fail> {
+    async fn do_write(&mut self, data: Arc<Vec<u8>>, inner: Option<Arc<Vec<u8>>>, class: Class, mode: u8, key_style: u8, probe_first: bool) -> Result<(), Fail> {
         let sys = self.sys.name();
         let key_n = payload::ekey_n(&data);
         let mode = match self.sys {
@@ -472,6 +475,17 @@ impl World<'_> {
             }
             _ => key_n,
         };
+        // A caller may ask for a key before the object exists (a legal probe that answers "absent"):
+        // the write that follows must still become visible under that key.
+        if probe_first && self.sys != Sys::Archive && !matches!(self.st.get(&key_n), Some(St::Live | St::Unknown)) {
+            self.fl.class("probed-before-write");
+            if matches!(self.sut.query(&key_n).await, Some(Ok(true))) {
+                return Err(fail(format!("C04:{sys}:never-written-key-present"), format!("query({}) true before the write", hex8(&key_n))));
+            }
+            if let Ok(b) = self.sut.read(&key_n, None, data.len()).await {
+                return Err(fail(format!("C04:{sys}:never-written-key-readable"), format!("read({}) returned {} bytes before the write", hex8(&key_n), b.len())));
+            }
+        }
         match self.sut.write(&key_arg, &data, mode).await {
             Err(_) => {
                 // the statement speaks about writes that succeeded
@@ -592,7 +606,7 @@ fn run_case(c: &Case, known: &Known) -> Verdict {
                     if c.sys == Sys::Archive {
                         w.fl.class(["mode:N", "mode:Z", "mode:4"][(*mode % 3) as usize]);
                     }
-                    w.do_write(data, inner, *class, *mode, (*seed >> 7) as u8).await?;
+                    w.do_write(data, inner, *class, *mode, (*seed >> 7) as u8, (*seed >> 15) & 1 == 1).await?;
                 }
                 Op::Rewrite(ix) => {
                     if !w.objs.is_empty() {
@@ -603,7 +617,7 @@ fn run_case(c: &Case, known: &Known) -> Verdict {
                         } else {
                             w.fl.class("rewrite-same-content");
                         }
-                        w.do_write(data, inner, class, 0, 0).await?;
+                        w.do_write(data, inner, class, 0, 0, *ix & 1 == 1).await?;
                     }
                 }
                 Op::Read(ix) | Op::Query(ix) => {
@@ -647,6 +661,27 @@ fn run_case(c: &Case, known: &Known) -> Verdict {
                     if let Sut::C(cont) = &w.sut {
                         let _ = cont.flush_bucket(*b & 0x0F);
                         w.fl.class("flush");
+                    }
+                }
+                Op::FillBucket { bucket, n, seed } => {
+                    if c.sys != Sys::Archive {
+                        w.fl.class("fill-one-bucket");
+                        if *n >= 64 {
+                            w.fl.class("fill-one-bucket>=64");
+                        }
+                        let mut r = Rng::new(*seed);
+                        let mut done = 0u16;
+                        let mut tries = 0u32;
+                        while done < *n && tries < 200_000 {
+                            tries += 1;
+                            let data = r.bytes(8);
+                            let k = payload::ekey_n(&data);
+                            if cascette_client_storage::index::IndexManager::bucket_for_key(&EncodingKey::from_bytes(k)) != (*bucket & 0x0F) || w.st.contains_key(&k) {
+                                continue;
+                            }
+                            w.do_write(Arc::new(data), None, Class::Random, 0, 0, false).await?;
+                            done += 1;
+                        }
                     }
                 }
                 Op::Reopen => w.reopen().await?,
@@ -876,6 +911,32 @@ fn main() {
             "size-order-grid",
             "3 systems x (all ordered pairs and triples of sizes {0,1,50,100,1000,5000}, observed after every step, then Reopen) + every payload class x {0,64,1000} written, reopened, written again",
             move || Box::new(grid(seed).into_iter()),
+            move |c: &Case| run_case(c, &k),
+        )
+        .shards(16),
+    );
+    let k = known.clone();
+    ck.run(
+        Section::enumerate(
+            "one-bucket-fill",
+            "container and installation x n = 1..=200 (and 6 larger counts up to 640): n distinct small objects whose keys all fall into one index bucket, written without a flush, then Reopen and a read of every object; and the same after an earlier flushed batch of 30 (update-log pages hold 21 entries: every page boundary and partial last page is crossed)",
+            move || {
+                let mut v = Vec::new();
+                for sys in [Sys::Container, Sys::Installation] {
+                    for n in (1u16..=200).chain([211, 253, 316, 400, 505, 640]) {
+                        let bucket = (n % 16) as u8;
+                        v.push(Case { sys, sweep_every_step: false, ops: vec![Op::FillBucket { bucket, n, seed: seed ^ u64::from(n) }, Op::Reopen] });
+                        if n % 3 == 0 {
+                            v.push(Case {
+                                sys,
+                                sweep_every_step: false,
+                                ops: vec![Op::FillBucket { bucket, n: 30, seed: seed ^ 0x5151 }, Op::Flush, Op::FillBucket { bucket, n, seed: seed ^ u64::from(n) }, Op::Reopen, Op::FillBucket { bucket, n: 3, seed: seed ^ 0x77 }, Op::Reopen],
+                            });
+                        }
+                    }
+                }
+                Box::new(v.into_iter())
+            },
             move |c: &Case| run_case(c, &k),
         )
         .shards(16),
